@@ -54,6 +54,9 @@ pub fn install_quiet_panic_hook() {
     std::panic::set_hook(Box::new(|info| {
         if std::env::var_os("VH_PANIC_TRACE").is_some() {
             eprintln!("[panic] {info}");
+            if std::env::var_os("VH_PANIC_BT").is_some() {
+                eprintln!("{}", std::backtrace::Backtrace::force_capture());
+            }
         }
     }));
 }
